@@ -45,11 +45,19 @@ CONFIG = {
         "assumptions": ["nothing is claimed for N beyond the bound"],
     },
     "C04": {
-        "level": "exploration", "proof": False, "rtc": True,
-        "explanation": "Bounded run-time contract on the real HalfRotobjVoronoi matrices against a Qhull-free oracle on S^3 (exact dual-face "
-                       "clipping + hull-edge LP, Monte-Carlo cross-check): cube4D and randomQ, every N in 4..24 (quick) / 4..80 (thorough), "
-                       "every signed pair incl. index 0 and antipodal-only pairs; fold semantics and symmetry checked on the real arrays.",
-        "assumptions": ["nothing is claimed for N beyond the bound"],
+        "level": "other", "proof": True, "rtc": True,
+        "explanation": "Proved (symbolic N, intermediate assertions on the real HalfRotobjVoronoi._calculate_N_N_array, three loop "
+                       "invariants): (p1) the antipode map built by the first loop is total, map[d] = d +- N for every d < 2N (this is "
+                       "the obligation finding F1 violated: `if opp_ind:` on array([0])); (p2) after the in-place fold every entry is "
+                       "a[i][c] = a[i][opp c] = A(i,lo) if non-zero else A(i,hi) for the pair {c, opp c}; lemmas: the folded upper block "
+                       "is symmetric when the full-sphere matrix is symmetric and centrally symmetric; the distance rule min(theta, "
+                       "pi - theta) is the minimum over sign. Bounded (the geometric claim): adjacency <=> shared 2-D face, border = "
+                       "face area, distance, against a Qhull-free oracle on S^3 (exact dual-face clipping + hull-edge LP), cube4D and "
+                       "randomQ, every N in 4..24 (quick) / 4..80 (thorough), every signed pair; fold and extraction on the real arrays.",
+        "trusted_base": [NUMPY, "ASSUMED (post-condition of C07, proved there for the layout): the double cover is [G; -G] exactly and its rows are "
+                         "pairwise not isclose; upper indices are 0..N-1", "np.isclose / np.all(axis=1) / np.nonzero contracts; symbolic dict model"],
+        "assumptions": ["the NaN-mask extraction of the upper block (p3) and everything Qhull computes are bounded only; nothing is claimed for N "
+                        "beyond the bound"],
     },
     "C06": {
         "level": "other", "proof": True, "rtc": True,
